@@ -44,6 +44,7 @@ fn main() {
     let code = match cmd.as_str() {
         "hist" => scen::hist::main(&args),
         "grammar" => scen::grammar::main(&args),
+        "urgency" => scen::urgency::main(&args),
         _ => {
             eprintln!("usage: tcs-harness <hist|…> --out FILE [--seed N] …");
             2
